@@ -1,6 +1,6 @@
 #!/bin/bash
 # tools/run_all.sh [tier] - run every registered check once (VERIF_SEED honoured), print one line per property
-tier=${1:-quick}; cd /verif
+tier=${1:-quick}; cd "$(dirname "$0")/.."
 for id in $(/venv/bin/python -c "import json;print(' '.join(c['property_id'] for c in json.load(open('MANIFEST.json'))['checks']))"); do
   s=$(date +%s.%N); out=$(./check $id $tier 2>&1); code=$?; e=$(date +%s.%N)
   printf "%s exit=%d %.1fs %s\n" $id $code $(echo "$e - $s" | bc) "$(echo "$out" | grep -E '^(VIOLATION|HARNESS-ERROR|KNOWN-FINDING)' | head -3 | cut -c1-160 | tr '\n' ' ')"
